@@ -146,6 +146,14 @@ CHECKS = {
              "numbers and back; Zero() is all-zero bytes; SetValue/MutableValue write exactly the stored value.",
         note="Exhaustive over the finite space of instantiations.",
         ref="3/C17"),
+    "C20": dict(
+        technique="sanitizers: every monitor re-run under ASan + UBSan + libstdc++ debug mode (reports abort and are attributed by breadcrumb), strto*-model oracle for ParseNumber on generated byte strings, libFuzzer+ASan+UBSan target for both parsers, valgrind memcheck (thorough)",
+        text="The other properties' workloads are rebuilt with -fsanitize=address,undefined -fno-sanitize-recover=all and libstdc++ "
+             "debug assertions and re-run with their oracles on, so a sanitizer report, an escaped exception, an undeclared enumerator "
+             "or a wrong value all surface; ParseNumber is driven with six classes of hostile byte strings against a model written on "
+             "strtof/strtod/strtold; a clang libFuzzer target explores both parsers with the same oracles; memcheck looks for uninitialised reads.",
+        note="Quick re-runs the table/parser/printing/angle/model/per-type monitors (50 TUs, ~5 min cold); thorough re-runs all. MSan unusable here (uninstrumented libstdc++).",
+        ref="3/C20"),
 }
 
 PENDING = {}
